@@ -678,14 +678,68 @@ def run(rep: Report, ctx: Any) -> str:
                        "again by the narrowed property - an inherited default is not kept as converted for the wider one (shared with C13 R13.9)")
     rep.floor("copies_that_replace_default_determinants", determinants.check(rep, ctx, "R15.10"), 1)
     determinants.control(rep, "R15.10")
+    from . import registries
+
+    rep.rule("R15.11", "the class that is generated for a narrowed enum is the one the merge chose: the merged property names its class "
+                       "(class_info, taken from the same declaration as the values) and the class is generated from what is registered under "
+                       "that name, so under one class name only one list of values is ever registered - a second declaration under the "
+                       "name of a registered enum with other values (two members of one allOf that declare the same inline enum property "
+                       "differently) is a diagnostic, not a silent replacement (shared with C07 R07.4 / C09 R09.3)")
+    rep.floor("enum_registrations_judged", registries.check_enum_name_identifies_values(rep, ctx, "R15.11"), 2)
     return LEVEL
+
+
+def _composition(ix: Any) -> tuple[Any, Any, list[Any], list[Any]]:
+    """(entry, home, region, nested): _process_properties; the function of its region in which the state of the composition lives; the
+    functions of the region (private helpers it calls, methods of the private records they make) and the functions nested in these.
+    The home is where the mapping that collects the properties of the composed model is created: _process_properties itself, or - when it
+    only hands on to a function that does the work (and, say, converts how that one reports failure) - that function.  Variables are named
+    as the home names them; a helper that is handed them, sees them as a closure or hands them back knows them by alias."""
+    entry = ix.func("model_property._process_properties")
+    got = _COMPOSITION.get(entry.qual)
+    if got is None or got[0] is not entry.node:
+        reg = _with_record_methods(ix, region(ix, entry))
+        nested = [h for h in ix.all_functions if h.parent is not None and any(_encloses(g, h) for g in reg)]
+        _COMPOSITION[entry.qual] = got = (entry.node, (entry, _state_owner(entry, reg + nested), reg, nested))
+    e, home, reg, nested = got[1]
+    return e, home, list(reg), list(nested)
+
+
+_COMPOSITION: dict[str, tuple[Any, tuple[Any, Any, list[Any], list[Any]]]] = {}
+
+
+def _state_owner(entry: Any, funcs: list[Any]) -> Any:
+    """the function that creates (binds by an assignment of its own) the mapping the functions of the region store properties into"""
+    al = Aliases([entry, *funcs])
+    by_qual = {f.qual: f for f in [entry, *funcs]}
+    owners: list[Any] = []
+    for outward in (True, False):  # a store made by a function that was handed the mapping says most; else any store
+        for g in by_qual.values():
+            for n in _own_nodes(g.node):
+                for var in _store_targets(n, local_names(g.node) if outward else set()):
+                    base = var.split(".", 1)[0]
+                    al.up.setdefault((g.qual, base), (g.qual, base))
+                    root = al._find((g.qual, base))
+                    for (q, name) in list(al.up):
+                        f = by_qual.get(q)
+                        if f is not None and "." not in name and al._find((q, name)) == root and \
+                                any(isinstance(x, ast.Name) and isinstance(x.ctx, ast.Store) and x.id == name for x in _own_nodes(f.node)) and \
+                                name not in {x for y in _own_nodes(f.node) if isinstance(y, (ast.Nonlocal, ast.Global)) for x in y.names} and \
+                                f not in owners:
+                            owners.append(f)
+        if owners:
+            break
+    if not owners or any(f.qual == entry.qual for f in owners):
+        return entry
+    outer = [f for f in owners if not any(_encloses(o, f) for o in owners)]
+    return outer[0]
 
 
 def check_no_parent_mutation(rep: Report, ctx: Any, rid: str) -> None:
     """property objects inherited from a referenced parent are shared: never mutated while composing a child (C15 / C02)"""
     ix = ctx.py
-    pp = ix.func("model_property._process_properties")
-    funcs = _unique(_with_record_methods(ix, region(ix, pp)))
+    _, pp, reg, _ = _composition(ix)
+    funcs = _unique(reg)
     found = _find_allof_loop(pp, funcs)
     decision = _find_member_decision(found[1], found[2]) if found else None
     at = where(found[0], decision[0]) if found and decision else where(pp, pp.node)  # where the rule looks when there is nothing to report
@@ -812,12 +866,15 @@ def _descrs(mf: MergeFn, r: SymExec) -> set[str]:
             for s, e, _ in r.terminals}
 
 
-def _referenced_region(ix: Any, f: Any, depth: int = 3) -> list[Any]:
-    """f and the private functions of its module it refers to, called directly or handed around as values (a table of strategies)"""
+def _referenced_region(ix: Any, f: Any, depth: int = 3, stop_at: tuple[str, ...] = ()) -> list[Any]:
+    """f and the private functions of its module it refers to, called directly or handed around as values (a table of strategies, the
+    step function of a fold); the functions named in `stop_at` are part of the region, what only they refer to is not"""
     out, seen, frontier = [f], {f.qual}, [f]
     for _ in range(depth):
         nxt = []
         for g in frontier:
+            if g.name in stop_at and g is not f:
+                continue  # what lies behind this function is its business, not the business of those that call it
             used = {n.id for n in ast.walk(g.node) if isinstance(n, ast.Name) and isinstance(n.ctx, ast.Load) and n.id.startswith("_")}
             for h in ix.all_functions:
                 if h.name in used and h.qual not in seen and h.module is g.module and h.cls is None and h.parent is None:
@@ -889,7 +946,10 @@ def _decided_in_callers(reg: list[Any], name: str, followed: set[tuple[str, int,
 def _merge_rules(rep: Report, ctx: Any, mp: Any) -> None:
     ix = ctx.py
     it, _ = ctx.flow
-    reg = _referenced_region(ix, mp)
+    # the functions that choose between the two declarations: from merge_properties down to the function that applies overrides to the
+    # declaration that was chosen as the base.  That one - with whatever it is made of - is asymmetric by contract (the result has the class
+    # of `base`); what it does with each override is the subject of R15.2 / R15.6, which side is handed to it as the base is decided here
+    reg = _referenced_region(ix, mp, stop_at=(MERGE_BASE_FN,))
     world = World(ix, mp.module)
     follow, predicates = _followed_helpers(reg, mp, world)
     two_args = [f for f in reg if len([*f.node.args.posonlyargs, *f.node.args.args]) >= 2 and f.node.args.vararg is None]
@@ -1052,6 +1112,7 @@ def _enum_sibling(rep: Report, ctx: Any, mf: MergeFn, kind: str) -> None:
               lhs=sorted(direction), rhs="a <= b and b <= a")
     others = {p: [k for k, (q, ts) in mf.atoms.items() if q == p and ts != {kind}] for p in mf.params}
     wrong, n_narrow, silent, n_incompat, unchecked, n_single = [], 0, [], 0, [], 0
+    split: list[str] = []
     for env, r in mf.runs:
         if not _feasible(mf, env):
             continue
@@ -1071,6 +1132,12 @@ def _enum_sibling(rep: Report, ctx: Any, mf: MergeFn, kind: str) -> None:
                     n_narrow += 1
                     if not any({small} == src for small, _ in true_sub):
                         wrong.append(f"values={text} when {[k for k, v in st.assume.items() if v and k in direction]}")
+                # ... and the class the result names (the class that is generated for it) is the class of the declaration the values are
+                # taken from: given with them, or both left as the copied argument has them
+                named = [names_in(kw.value) & set(mf.params) for c in calls_in(e) for kw in c.keywords if kw.arg == "class_info"] or ([{base}] if base else [])
+                for src_c in named:
+                    if any(src_c != src for _, src in sources):
+                        split.append(f"class_info of {sorted(src_c)}, values of {sorted(sources[0][1])} when {[k for k, v in st.assume.items() if v and k in direction]}")
             if both and set(direction) <= set(st.assume) and not true_sub:
                 n_incompat += 1
                 if _descr(e, mf.params) != "<error>":
@@ -1091,6 +1158,9 @@ def _enum_sibling(rep: Report, ctx: Any, mf: MergeFn, kind: str) -> None:
     rep.require(n_incompat and n_single, f"paths of {name} for incompatible / single-enum arguments")
     rep.check(not wrong, "R15.1", f"{name}::smaller-enum-wins", "of two enums the result does not take the values of the one that is a subset of the "
               "other", where(mf.f, mf.f.node), lhs=sorted(set(wrong))[:3], rhs="values of the subset side")
+    rep.check(not split, "R15.1", f"{name}::class-follows-values", "the result of merging two enums has the values of one declaration and names the "
+              "class of the other: the attribute of the composed model is typed with a class that has other values than the merge chose",
+              where(mf.f, mf.f.node), lhs=sorted(set(split))[:3], rhs="class_info and values from the same argument")
     rep.check(not silent, "R15.1", f"{name}::incompatible-is-error", "two enums of which neither is a subset of the other, or an enum and a non-base "
               "type, are merged without a diagnostic", where(mf.f, mf.f.node), lhs=sorted(set(silent))[:3], rhs="PropertyError")
     rep.check(not unchecked, "R15.1", f"{name}::base-type-checked", "an enum is merged with an int / string property without looking at the enum's value "
@@ -1267,6 +1337,8 @@ def _receiver_classes(g: Any, name: str) -> set[str]:
     for v in Locals(g.node).values_of(name):
         if isinstance(v, ast.Call):
             out.add(call_name(v).rsplit(".", 1)[-1])
+            if isinstance(v.func, ast.Attribute) and isinstance(v.func.value, ast.Name):
+                out.add(v.func.value.id)  # `<Class>.<alternative constructor>(...)`
     return out
 
 
@@ -1623,24 +1695,43 @@ def _result_attr_sites(funcs: list[Any], attr: str) -> list[tuple[Any, ast.AST, 
     return out
 
 
+def _base_region(ix: Any, mca: Any) -> list[Any]:
+    """the function that applies the overrides to the base and the private functions it is made of: those it calls and those it hands on
+    as values (the step function of a fold)"""
+    return list({f.qual: f for f in [*region(ix, mca), *_referenced_region(ix, mca)]}.values())
+
+
+def _fold_element_params(f: Any, g: Any, seq: str) -> set[str]:
+    """the parameters of g that stand for one element of `seq` (a variable of f) where f folds g over it: `reduce(g, seq[, initial])` calls
+    g(accumulated, element) for each element in turn - the loop `for x in seq: acc = g(acc, x)` written as a call"""
+    pos = [p.arg for p in [*g.node.args.posonlyargs, *g.node.args.args]]
+    out: set[str] = set()
+    for c in calls_in(f.node):
+        if call_name(c).rsplit(".", 1)[-1] == "reduce" and 2 <= len(c.args) <= 3 and not c.keywords and isinstance(c.args[0], ast.Name) and \
+                c.args[0].id == g.name and norm(c.args[1]) == seq and len(pos) >= 2:
+            out.add(pos[1])
+    return out
+
+
 def _required_and_members(rep: Report, ctx: Any, cfgs: dict[str, CFG]) -> None:
     ix = ctx.py
     mca = ix.func("merge_properties._merge_common_attributes")
     # `required` of the merged property is given in _merge_common_attributes or in a helper it hands the accumulated property and one override to
-    sites = _result_attr_sites(region(ix, mca), "required")
+    sites = _result_attr_sites(_base_region(ix, mca), "required")
     rep.require(sites, "where `required` of the merged property is given (region of _merge_common_attributes)")
-    each = {norm(lp.target) for lp in ast.walk(mca.node) if isinstance(lp, ast.For) and norm(lp.iter) == "extend_with"}  # one override at a time
+    overrides = mca.node.args.vararg.arg if mca.node.args.vararg else "extend_with"
+    each = {norm(lp.target) for lp in ast.walk(mca.node) if isinstance(lp, ast.For) and norm(lp.iter) == overrides}  # one override at a time
     for g, node, acc, value in sites:
         over = set(each) if g is mca else {p_ for call in calls_in(mca.node) if call_name(call) == g.name
                                            for p_, a in (_bind_args(g.node, call) or {}).items() if norm(a) in each}
+        if g is not mca:  # a fold over the overrides hands them to its step function one at a time, as the second argument
+            over |= {p_ for p_ in _fold_element_params(mca, g, overrides)}
         want = {f"{acc}.required"} | {f"{o}.required" for o in over}
         ok = _disjuncts(value, Locals(g.node)) == want and len(want) == 2
         rep.check(ok, "R15.2", "_merge_common_attributes::required-disjunction", "merged requiredness is not `current.required or override.required`",
                   where(g, node), lhs=norm(value), rhs=" or ".join(sorted(want)))
 
-    pp = ix.func("model_property._process_properties")
-    reg = _with_record_methods(ix, region(ix, pp))
-    nested = [h for h in ix.all_functions if h.parent is not None and _encloses(pp, h)]  # part of the region whatever they are called
+    _, pp, reg, nested = _composition(ix)  # nested functions are part of the region whatever they are called
     funcs = _unique(reg)
     _aliases(pp, reg + nested)
     # the places the rules look at are found by what they do, in _process_properties or in a function it hands its state to (or that hands
@@ -1777,7 +1868,7 @@ def _leaves(e: ast.expr, g: Any, reg: list[Any], via: frozenset[str] = frozenset
 def _merged_default(rep: Report, ctx: Any, cfgs: dict[str, CFG]) -> None:
     ix = ctx.py
     mca = ix.func(f"merge_properties.{MERGE_BASE_FN}")
-    reg = region(ix, mca)
+    reg = _base_region(ix, mca)
     sites = _result_attr_sites(reg, "default")
     rep.require(sites, f"where `default` of the merged property is given (region of {MERGE_BASE_FN})")
     for g, c, acc, value in sites:
@@ -1880,19 +1971,32 @@ def _binder(fn: ast.AST, node: ast.AST, name: str) -> ast.For | ast.comprehensio
 
 def _imports_of_every_property(rep: Report, ctx: Any, cfgs: dict[str, CFG]) -> None:
     ix = ctx.py
-    pp = ix.func("model_property._process_properties")
-    nested = [h for h in ix.all_functions if h.parent is not None and _encloses(pp, h)]
-    funcs = list({f.qual: f for f in [*_with_record_methods(ix, region(ix, pp)), *nested]}.values())
+    _, pp, reg, nested = _composition(ix)
+    funcs = list({f.qual: f for f in [*reg, *nested]}.values())
     # roles: the result (the call that hands back the two property lists and the two import sets), the mapping every property of the
     # composed model is stored in, the two result lists - each as _process_properties calls them
     fields = list(ix.cls("_PropertyData").fields)
-    results = [(g, c) for g in funcs for c in _own_nodes(g.node) if isinstance(c, ast.Call) and call_name(c).rsplit(".", 1)[-1] == "_PropertyData"]
+    def makes_result(g: Any, c: ast.AST) -> bool:
+        """the call constructs the result: by the name of its class, or as `cls(...)` in an alternative constructor of that class"""
+        if not isinstance(c, ast.Call):
+            return False
+        if call_name(c).rsplit(".", 1)[-1] == "_PropertyData":
+            return True
+        first = [a.arg for a in [*g.node.args.posonlyargs, *g.node.args.args]][:1]
+        return g.cls is not None and g.cls.name == "_PropertyData" and g.kind == "classmethod" and [call_name(c)] == first
+
+    results = [(g, c) for g in funcs for c in _own_nodes(g.node) if makes_result(g, c)]
     rep.require(results, "construction of the result (_PropertyData) in the region of _process_properties")
     role: dict[str, set[str]] = {}
     for g, c in results:
         given = {**dict(zip(fields, c.args)), **{kw.arg: kw.value for kw in c.keywords if kw.arg}}
         for k, v in given.items():
             role.setdefault(k, set()).update(_in_caller(pp, g, _unfiltered_sources(v, Locals(g.node)) or names_in(v)))
+    for g in funcs:  # ... or what is filled in afterwards: the field of a result object is that variable, wherever the object is at hand
+        for n in _own_nodes(g.node):
+            if isinstance(n, ast.Attribute) and isinstance(n.value, ast.Name) and n.attr in fields and "_PropertyData" in _receiver_classes(g, n.value.id):
+                var = f"{n.value.id}.{n.attr}"
+                role.setdefault(n.attr, set()).update(_in_caller(pp, g, {var}) or {f"{g.name}: {var}"})
     rep.floor("composed_result_roles", sum(1 for k in ("required_props", "optional_props", "relative_imports", "lazy_imports") if role.get(k)), 2)
     lists = [role.get("required_props", set()), role.get("optional_props", set())]
     storage: set[str] = set()
@@ -1917,27 +2021,52 @@ def _imports_of_every_property(rep: Report, ctx: Any, cfgs: dict[str, CFG]) -> N
                             out |= seen_from_pp(h, _unfiltered_sources(a, Locals(h.node))) if h.qual != g.qual else set()
         return out
 
+    def asked(g: Any, var: str, method: str, depth: int = 2) -> list[ast.Call]:
+        """the calls of g by which `method` is called on what variable var holds (or on a copy made from it): `<var>.<method>(...)`, or the
+        call of a function of the region that is handed it and calls the method on what it is handed on every path"""
+        out: list[ast.Call] = []
+        for c in _own_nodes(g.node):
+            if not isinstance(c, ast.Call):
+                continue
+            if isinstance(c.func, ast.Attribute) and c.func.attr == method and isinstance(c.func.value, ast.Name) and c.func.value.id == var:
+                out.append(c)
+            elif depth > 0:
+                for h in _callees(g, c, funcs):
+                    bound = (_bind_args(h.node, _plain_call(h, c)) or {}) if h.qual != g.qual else {}
+                    if any(var in names_in(a) and asked_always(h, p_, method, depth - 1) for p_, a in bound.items()):
+                        out.append(c)
+                        break
+        return out
+
+    def asked_always(h: Any, param: str, method: str, depth: int) -> bool:
+        sts = [stmt_of(h.node, c) for c in asked(h, param, method, depth)]
+        return bool(sts) and all(st is not None for st in sts) and \
+            cfg_of(h, cfgs).every_path_passes(ENTRY, EXIT, lambda n: any(n is st for st in sts))
+
     for method, what in (("get_imports", "imports"), ("get_lazy_imports", "lazy-imports")):
         verdicts: list[tuple[bool, bool, str, Any, ast.AST]] = []
         for g in funcs:
             cfg = cfg_of(g, cfgs)
-            for c in _own_nodes(g.node):
-                if not (isinstance(c, ast.Call) and isinstance(c.func, ast.Attribute) and c.func.attr == method and isinstance(c.func.value, ast.Name)):
-                    continue
-                b = _binder(g.node, c, c.func.value.id)
-                if b is None:
-                    continue  # not the element of an iteration (a single extra property, say)
+            # the iterations of g (loops and comprehensions), each with the places at which the method is asked of its element
+            per_binder: dict[int, tuple[Any, list[ast.Call]]] = {}
+            bound_vars = {v for n in _own_nodes(g.node) if isinstance(n, (ast.For, ast.AsyncFor, ast.comprehension)) for v in names_in(n.target)}
+            for var in sorted(bound_vars):
+                for c in asked(g, var, method):
+                    b = _binder(g.node, c, var)
+                    if b is not None:  # else: not the element of an iteration (a single extra property, say)
+                        per_binder.setdefault(id(b), (b, []))[1].append(c)
+            for b, cs in per_binder.values():
                 sources = seen_from_pp(g, _unfiltered_sources(b.iter, Locals(g.node)))
                 covers = bool(sources & storage) or (all(lists) and all(l_ & sources for l_ in lists))
                 if isinstance(b, ast.comprehension):
                     always = not b.ifs
                 else:
-                    s = stmt_of(g.node, c)
+                    sts = [stmt_of(g.node, c) for c in cs]
                     inside = {id(x) for x in ast.walk(b)}
-                    skipping = cfg.reachable_from(b.body[0], avoid=lambda n, s=s: n is s) if b.body[0] is not s else set()
+                    skipping = cfg.reachable_from(b.body[0], avoid=lambda n, sts=sts: any(n is s for s in sts)) if not any(b.body[0] is s for s in sts) else set()
                     # the next element is reached, or the loop is left for good, without the call (an error return ends everything)
-                    always = s is not None and not any(n is b or (n is not EXIT and id(n) not in inside) for n in skipping)
-                verdicts.append((covers, always, norm(b.iter)[:60], g, c))
+                    always = all(s is not None for s in sts) and not any(n is b or (n is not EXIT and id(n) not in inside) for n in skipping)
+                verdicts.append((covers, always, norm(b.iter)[:60], g, cs[0]))
         ok = any(cv and al for cv, al, _, _, _ in verdicts)
         at = where(verdicts[0][3], verdicts[0][4]) if verdicts else where(pp, pp.node)
         rep.check(ok, "R15.7", f"_process_properties::every-property-{what}",
@@ -1954,9 +2083,8 @@ def _imports_of_every_property(rep: Report, ctx: Any, cfgs: dict[str, CFG]) -> N
 
 def _python_names_compared(rep: Report, ctx: Any, cfgs: dict[str, CFG]) -> None:
     ix = ctx.py
-    pp = ix.func("model_property._process_properties")
-    nested = [h for h in ix.all_functions if h.parent is not None and _encloses(pp, h)]
-    funcs = list({f.qual: f for f in [*_with_record_methods(ix, region(ix, pp)), *nested]}.values())
+    _, pp, reg, nested = _composition(ix)
+    funcs = list({f.qual: f for f in [*reg, *nested]}.values())
     _aliases(pp, funcs)
     # the mapping (as _process_properties calls it) and the statements that store into it
     stores: list[tuple[Any, ast.stmt]] = []
@@ -2215,6 +2343,8 @@ def _with_record_methods(ix: Any, reg: list[Any]) -> list[Any]:
         for g in frontier:
             for c in calls_in(g.node):
                 name = call_name(c)
+                if name.startswith("_") and name.count(".") == 1:
+                    name = name.split(".", 1)[0]  # `_Record.empty(...)`: a constructor of the record by another name
                 r = ix.resolve(g.module, name) if name.startswith("_") and "." not in name else None
                 if r and r[0] == "class" and r[1].module is g.module:
                     for m in r[1].methods.values():
@@ -2377,6 +2507,25 @@ def _inlined(e: ast.expr, g: Any, reg: list[Any], depth: int = 2) -> ast.expr:
     return Inline().visit(copy.deepcopy(e))
 
 
+def _converted_exceptions(reg: list[Any]) -> set[str]:
+    """the exception classes that a function of the region catches and answers with a return: raising one of them below that function is
+    how the region returns (an error) from anywhere in it"""
+    out: set[str] = set()
+    for g in reg:
+        for h in ast.walk(g.node):
+            if isinstance(h, ast.ExceptHandler) and h.type is not None and any(isinstance(x, ast.Return) and x.value is not None for b in h.body for x in ast.walk(b)):
+                out |= {norm(t).rsplit(".", 1)[-1] for t in (h.type.elts if isinstance(h.type, ast.Tuple) else [h.type])}
+    return out - {"Exception", "BaseException"}
+
+
+def _raises_into(n: object, converted: set[str]) -> bool:
+    """statement n raises an exception of a class that the region converts into what it returns"""
+    if not isinstance(n, ast.Raise) or n.exc is None:
+        return False
+    e = n.exc
+    return (call_name(e) if isinstance(e, ast.Call) else norm(e)).rsplit(".", 1)[-1] in converted
+
+
 def _parents_first(rep: Report, ctx: Any, cfgs: dict[str, CFG]) -> None:
     ix = ctx.py
     pm = ix.func("properties._process_models")
@@ -2499,8 +2648,8 @@ def _parents_first(rep: Report, ctx: Any, cfgs: dict[str, CFG]) -> None:
     # the decision is whatever test, read with what its locals hold, looks at the two property lists of the parent and has an outcome
     # that ends in an error.  It is evaluated for the lists as they can be: None before the parent is processed, lists - empty ones
     # too - afterwards.
-    pp = ix.func("model_property._process_properties")
-    preg = _with_record_methods(ix, region(ix, pp))
+    _, pp, preg, _ = _composition(ix)
+    converted = _converted_exceptions(preg)
     unprocessed = {a: None for a in _PARENT_LISTS}
     processed = [dict(zip(_PARENT_LISTS, v)) for v in itertools.product([[], [object()]], repeat=2)]
     found, reported, refused = False, False, []
@@ -2513,7 +2662,7 @@ def _parents_first(rep: Report, ctx: Any, cfgs: dict[str, CFG]) -> None:
             test = _inlined(s.test, g, preg)
             if not any(isinstance(a, ast.Attribute) and a.attr in _PARENT_LISTS for a in ast.walk(test)):
                 continue
-            is_err = lambda n: isinstance(n, ast.Return) and constructs_error(n.value)  # noqa: E731
+            is_err = lambda n: (isinstance(n, ast.Return) and constructs_error(n.value)) or _raises_into(n, converted)  # noqa: E731
             err_on = [v for v in (True, False) for entry in [_arm_entries(gcfg, s, v)[0]]
                       if is_err(entry) or EXIT not in gcfg.reachable_from(entry, avoid=is_err)]
             if len(err_on) != 1:
